@@ -259,7 +259,7 @@ func (c *segCase) rule() string {
 		return "styp"
 	case c.Layout.TopSidx:
 		return "sidx"
-	case c.ism() && c.Layout.Mfra:
+	case c.ism() && c.Layout.Mfra && !c.Layout.MfraNoTfra:
 		return "tfra"
 	case c.moof():
 		return "moof"
@@ -1597,6 +1597,9 @@ func genCase(t *rapid.T) (segCase, string) {
 	}
 	if lay.Mfra {
 		lay.MfraFirstTrackOnly = rapid.Bool().Draw(t, "mfraFirstOnly")
+	}
+	if lay.Mfra && mode != modeIsm && rapid.IntRange(0, 3).Draw(t, "mfraNoTfra") == 0 {
+		lay.MfraNoTfra = true // an mfra that holds its mfro only: no random access table to segment by
 	}
 	needed := make([]bool, len(tracks)) // ism: tracks that must have samples in every fragment
 	if mode == modeIsm {
